@@ -70,7 +70,8 @@ def run_tlc(module, cfg, workers=8, timeout=1800, env=None, coverage=False, extr
     """Run TLC on spec/<module>.tla with config cfg (path or name in specdir)."""
     md = scratch_dir("tlc")
     cfgp = cfg if os.path.isabs(cfg) else os.path.join(specdir, cfg)
-    cmd = ["java", "-XX:+UseParallelGC", "-Xss" + xss, "-Xmx" + heap, "-cp", _TLC_JAR, "tlc2.TLC",
+    cmd = ["java", "-XX:+UseParallelGC", "-XX:ParallelGCThreads=%d" % max(2, min(8, workers)),
+           "-Xss" + xss, "-Xmx" + heap, "-cp", _TLC_JAR, "tlc2.TLC",
            "-workers", str(workers), "-metadir", md, "-noGenerateSpecTE", "-config", cfgp]
     if not deadlock:
         cmd.append("-deadlock")  # -deadlock DISABLES deadlock checking
@@ -412,3 +413,67 @@ def main_wrapper(fn):
         sys.stderr.write("MACHINERY FAILURE: %s\n" % e)
         sys.exit(2)
     sys.exit(rc)
+
+
+# ----------------------------------------------------------------------------------------------
+# Batched trace validation: one TLC invocation consumes many recorded traces/records
+# ----------------------------------------------------------------------------------------------
+def validate_records(module, cfg, records, nchunks=16, timeout=1800, idvar="i", max_rounds=4,
+                     extra_env=None):
+    """Split `records` (JSON-serialisable dicts, each with an 'id') into chunks; run the trace
+    spec `module` on each chunk in parallel (TLC -workers 1, env TRACE_FILE).  A chunk whose
+    run reports a violated invariant names the record (variable `idvar` in the last printed
+    state is the 1-based index in the chunk); that record is reported and removed, and the rest
+    of the chunk is re-validated (so one rejection does not leave the remainder unexamined).
+    Returns dict(accepted=n, rejected=[(record_id, invariant_name)], drift=set(ids), states=n)."""
+    from concurrent.futures import ThreadPoolExecutor
+    d = scratch_dir("trace")
+    nchunks = max(1, min(nchunks, len(records)))
+    chunks = [records[k::nchunks] for k in range(nchunks)]
+    res = {"accepted": 0, "rejected": [], "drift": set(), "states": 0, "generated": 0}
+
+    def run_chunk(arg):
+        k, chunk = arg
+        out = {"accepted": 0, "rejected": [], "drift": set(), "states": 0, "generated": 0}
+        rounds = 0
+        while chunk and rounds <= max_rounds + len(out["rejected"]):
+            rounds += 1
+            tf = os.path.join(d, "chunk%d_%d.json" % (k, rounds))
+            with open(tf, "w") as f:
+                json.dump(chunk, f, default=_jd)
+            env = {"TRACE_FILE": tf}
+            if extra_env:
+                env.update(extra_env)
+            r = run_tlc(module, cfg, workers=1, timeout=timeout, env=env, heap="3g")
+            out["states"] += r.distinct
+            out["generated"] += r.generated
+            for m in re.finditer(r'<<"DRIFT", "?([^">]+)"?>>', r.out):
+                out["drift"].add(m.group(1))
+            if r.ok:
+                out["accepted"] += len(chunk)
+                return out
+            if r.violated and r.violated != ["<postcondition>"]:
+                # find index of the offending record in the last state of the error trace
+                idx = None
+                for mm in re.finditer(r"^/\\ %s = (\d+)\s*$" % re.escape(idvar), r.out, flags=re.M):
+                    idx = int(mm.group(1))
+                if idx is None or not (1 <= idx <= len(chunk)):
+                    raise MachineryError("cannot locate rejected record:\n" + r.out[-3000:])
+                out["rejected"].append((chunk[idx - 1]["id"], r.violated[0]))
+                out["accepted"] += idx - 1
+                chunk = chunk[idx:]
+                continue
+            raise MachineryError("trace validation run failed (%s):\n%s" % (r.violated, r.out[-3000:]))
+        return out
+
+    try:
+        with ThreadPoolExecutor(max_workers=nchunks) as ex:
+            for o in ex.map(run_chunk, list(enumerate(chunks))):
+                res["accepted"] += o["accepted"]
+                res["rejected"] += o["rejected"]
+                res["drift"] |= o["drift"]
+                res["states"] += o["states"]
+                res["generated"] += o["generated"]
+    finally:
+        shutil.rmtree(d, ignore_errors=True)
+    return res
